@@ -29,6 +29,13 @@ def effect (fn : String) (_j : Json) : Option (Except String Json) :=
   | "effects_table" => some (pure (Json.mkObj [
       ("entries", Json.arr (table.map summary).toArray),
       ("notLowered", Json.arr (notLowered.map (fun t => Json.arr #[Json.str t.1, Json.str t.2.1, Json.str t.2.2])).toArray)]))
+  | "patch_table" => some (pure (Json.mkObj [
+      ("entries", Json.arr (patchTable.map (fun e => Json.mkObj [
+        ("name", Json.str e.cls), ("api", Json.bool e.api),
+        ("wellFormed", Json.bool (wellFormedWith e.taint e.nvars e.body e.prog)),
+        ("recursive", Json.bool (size e.body > 1)),
+        ("size", Json.num (JsonNumber.fromNat (size e.prog + size e.body)))])).toArray),
+      ("notLowered", Json.arr (patchesNotLowered.map (fun t => Json.arr #[Json.str t.1, Json.str t.2])).toArray)]))
   | _ => none
 
 end Simaple.DrvEffect
